@@ -154,3 +154,27 @@ M("c03_header_and_body_two_writes", ["C03"],
 M("c03_text_encoded_surrogatepass", ["C03"],
   ("lomond/websocket.py", "        payload = text.encode('utf-8')", "        payload = text.encode('utf-8', 'surrogatepass')"),
   equivalent=True)
+
+# ---- C07 -----------------------------------------------------------------
+M("c07_no_ready_gate", ["C07"],
+  ("lomond/session.py", "            if self._ready:\n                return self._regular(", "            if True:\n                return self._regular("),
+  ("lomond/session.py", "        self._next_ping = None\n        self._last_pong = None", "        self._next_ping = 0.0\n        self._last_pong = 0.0"))
+M("c07_disconnected_in_finally", ["C07"],
+  ("lomond/session.py", "        finally:\n            selector.close()", "        finally:\n            selector.close()\n            if websocket.is_closing:\n                yield events.Disconnected('closed')"))
+M("c07_while_true", ["C08"],
+  ("lomond/session.py", "            while not websocket.is_closed:", "            while True:"))
+M("c07_eof_ignored_when_closing", ["C07", "C08"],
+  ("lomond/session.py", "                        if websocket.is_active:\n                            self._socket_fail('connection lost')\n                        break",
+   "                        if websocket.is_active:\n                            self._socket_fail('connection lost')\n                        continue"))
+M("c07_rejected_returns_early", ["C07"],
+  ("lomond/session.py", "                            self._on_event(event, auto_pong)\n                            yield event\n",
+   "                            self._on_event(event, auto_pong)\n                            yield event\n                            if event.name == 'rejected':\n                                return\n"))
+M("c07_ready_twice_on_second_response", ["C07"],
+  ("lomond/stream.py", "            self._parsed_response = True\n", "            self._parsed_response = bool(header_data)\n"),
+  equivalent=True)
+M("c07_connect_fail_then_connected", ["C07", "C09"],
+  ("lomond/session.py", "            self._close_socket()\n            yield events.ConnectFail('request failed; {}'.format(error))\n            return",
+   "            self._close_socket()\n            yield events.ConnectFail('request failed; {}'.format(error))"))
+M("c07_poll_before_ready_after_reject", ["C07"],
+  ("lomond/session.py", "        if event.name == 'ready':\n            self._on_ready()\n            self._ready = True",
+   "        if event.name in ('ready', 'rejected'):\n            self._on_ready()\n            self._ready = True"))
